@@ -745,8 +745,16 @@ class Interp:
             if name in ("has_field", "HasField", "CopyFrom", "which_type", "which_expression"):
                 return _BoundRec(obj, name)
             raise Unsupported("read of undeclared field %s.%s at %s:%d" % (obj.typename, name, self.info.qualname, node.lineno))
+        if isinstance(obj, GDict):
+            if name == "get" and "get" not in obj.attrs:
+                return _BoundGDictGet(obj)
+            if name not in obj.attrs:
+                raise Unsupported("attribute %s of ghost dict %s at line %d" % (name, obj.label, node.lineno))
+            return obj.attrs[name]
         if is_sym(obj):
             raise Unsupported("attribute %s of symbolic scalar at line %d" % (name, node.lineno))
+        if isinstance(obj, tuple) and name in getattr(obj, "_fields", ()):
+            return getattr(obj, name)          # field of a namedtuple
         if isinstance(obj, (list, dict, str, tuple, set, frozenset)):
             return _BoundNative(obj, name)
         try:
@@ -764,6 +772,15 @@ class Interp:
                 raise Unsupported("symbolic slice at line %d" % e.lineno)
             return obj[lo:hi:st]
         idx = self.eval(e.slice)
+        if isinstance(obj, GDict):
+            if is_sym(idx) or idx not in obj.entries:
+                raise Unsupported("subscript %r of a ghost dict that does not specify it (line %d)" % (idx, e.lineno))
+            # reading a key that may be absent is a KeyError obligation
+            pres = obj.present.get(idx, True)
+            if pres is not True:
+                if pres is False or not self.ctx.branch(pres):
+                    self.raise_py("KeyError", e, repr(idx))
+            return obj.entries[idx]
         if isinstance(obj, dict):
             if is_sym(idx):
                 raise Unsupported("symbolic dict index at line %d" % e.lineno)
@@ -943,7 +960,11 @@ class Interp:
         if op is ast.IsNot:
             return self.negate(self.identical(a, b))
         if op is ast.In or op is ast.NotIn:
-            if isinstance(b, dict):
+            if isinstance(b, GDict):
+                if is_sym(a) or a not in b.present:
+                    raise Unsupported("membership test of %r in a ghost dict that does not specify it (line %d)" % (a, node.lineno))
+                r = b.present[a]
+            elif isinstance(b, dict):
                 if is_sym(a):
                     raise Unsupported("symbolic key in dict test")
                 r = a in b
@@ -1044,6 +1065,8 @@ class Interp:
             return True
         if isinstance(v, SRec):
             return True
+        if isinstance(v, GDict):
+            return v.truthy.t if isinstance(v.truthy, SBool) else v.truthy
         return bool(v)
 
     def truth(self, v):
@@ -1110,7 +1133,7 @@ class Interp:
         eng = self.ctx.engine
         if isinstance(fn, _BoundRec):
             return fn.call(self, args, kwargs, node)
-        if isinstance(fn, _BoundNative):
+        if isinstance(fn, (_BoundNative, _BoundGDictGet)):
             return fn.call(self, args, kwargs, node)
         if isinstance(fn, _Closure):
             return fn.call(args)
@@ -1191,6 +1214,21 @@ def copy_rec(v):
     return v
 
 
+class _BoundGDictGet:
+    def __init__(self, d):
+        self.d = d
+
+    def call(self, interp, args, kwargs, node):
+        key = args[0]
+        default = args[1] if len(args) > 1 else kwargs.get("default")
+        if is_sym(key) or key not in self.d.present:
+            raise Unsupported("get(%r) on a ghost dict that does not specify it (line %d)" % (key, node.lineno))
+        pres = self.d.present[key]
+        if pres is True or (pres is not False and interp.ctx.branch(pres)):
+            return self.d.entries[key]
+        return default
+
+
 class _BoundNative:
     def __init__(self, obj, name):
         self.obj = obj
@@ -1203,6 +1241,9 @@ class _BoundNative:
             return None
         if isinstance(o, list) and n == "extend":
             o.extend(interp.as_sequence(args[0], node))
+            return None
+        if isinstance(o, PSet) and n == "add":
+            o.add_elem(args[0])
             return None
         if isinstance(o, set) and n == "add":
             if is_sym(args[0]) or isinstance(args[0], SRec):
@@ -1224,8 +1265,14 @@ class _BoundNative:
             seq = interp.as_sequence(args[0], node)
             if any(is_sym(a) for a in seq):
                 raise Unsupported("join of symbolic strings")
+            if any(isinstance(a, list) for a in seq):
+                # opaque text pieces (a contract models rendered text as a list of pieces): joining concatenates the pieces
+                out = []
+                for a in seq:
+                    out.extend(a if isinstance(a, list) else [a])
+                return out
             return o.join(seq)
-        if isinstance(o, str) and n in ("startswith", "endswith", "lower", "upper", "strip", "split"):
+        if isinstance(o, str) and n in ("startswith", "endswith", "lower", "upper", "strip", "split", "title", "capitalize", "rstrip", "lstrip", "replace"):
             if any(is_sym(a) for a in args):
                 raise Unsupported("symbolic str method arg")
             return getattr(o, n)(*args)
@@ -1318,6 +1365,8 @@ def _minmax(is_max):
 
 
 def _b_len(interp, node, v):
+    if isinstance(v, PSet) and v.has_symbolic() and len(v) > 1:
+        raise Unsupported("len() of a set with symbolic elements at line %d" % node.lineno)
     if isinstance(v, (list, tuple, dict, str, set, frozenset)):
         return len(v)
     raise Unsupported("len(%r)" % type(v).__name__)
@@ -1406,17 +1455,48 @@ def _binop_fn(astop):
     return f
 
 
+class GDict:
+    """A dict of which a contract fixes only what the code may observe: for each (concrete) key whether it is present
+    (a Python bool or an SBool), the entry stored under it, and the dict's truthiness (empty or not)."""
+
+    def __init__(self, present, entries, truthy=True, label="dict", attrs=None):
+        self.present, self.entries, self.truthy, self.label = dict(present), dict(entries), truthy, label
+        self.attrs = dict(attrs or {})       # attributes of a dict subclass instance (e.g. symbol_resolver._Scope)
+
+
+class PSet(list):
+    """A Python set in the value model: the elements in insertion order.  Concrete elements are kept unique; symbolic
+    elements may be equal to one another (membership `x in S` is the disjunction of the element equalities), so the
+    length of a set that holds symbolic elements is not defined here (Unsupported)."""
+
+    def add_elem(self, v):
+        if not (is_sym(v) or isinstance(v, SRec)):
+            if any((not is_sym(x)) and (not isinstance(x, SRec)) and x == v for x in self):
+                return
+        self.append(v)
+
+    def has_symbolic(self):
+        return any(is_sym(x) for x in self)
+
+
 def _b_set(interp, node, *args):
-    if not args:
-        return set()
-    seq = interp.as_sequence(args[0], node)
-    if any(is_sym(a) or isinstance(a, SRec) for a in seq):
-        raise Unsupported("set of symbolic values at line %d" % node.lineno)
-    return set(seq)
+    out = PSet()
+    if args:
+        for a in interp.as_sequence(args[0], node):
+            out.add_elem(a)
+    return out
+
+
+def _b_zip(interp, node, *seqs):
+    return list(zip(*[interp.as_sequence(x, node) for x in seqs]))
+
+
+def _b_enumerate(interp, node, seq, start=0):
+    return list(enumerate(interp.as_sequence(seq, node), start))
 
 
 _BUILTINS = {
-    id(set): _b_set, id(int): _b_int, id(str): _b_str, id(abs): _b_abs, id(max): _minmax(True), id(min): _minmax(False),
+    id(zip): _b_zip, id(enumerate): _b_enumerate, id(set): _b_set, id(int): _b_int, id(str): _b_str, id(abs): _b_abs, id(max): _minmax(True), id(min): _minmax(False),
     id(len): _b_len, id(all): _b_all, id(any): _b_any, id(isinstance): _b_isinstance, id(tuple): _b_tuple,
     id(list): _b_list, id(range): _b_range, id(bool): _b_bool, id(sorted): _b_sorted,
     id(operator.eq): _cmp_op(ast.Eq), id(operator.ne): _cmp_op(ast.NotEq), id(operator.lt): _cmp_op(ast.Lt),
